@@ -523,7 +523,7 @@ def r4(ctx, cfg, R="C14.R4", parts=("Delegate", "Undelegate", "Redelegate")):
                 pass
             okm = contains(s[5], lambda x: x[0] == "agg" and x[1] == "cosmwasm_std::BankMsg::Send" and
                            contains(dict(x[2])["to_address"], lambda y: y[0] == "field" and y[2] == "module_addr" and is_param(y[1], "self")) and
-                           contains(dict(x[2])["amount"], lambda y: is_param_field(y, "msg", "amount")))
+                           _one_coin_vec(dict(x[2])["amount"], lambda y: is_param_field(y, "msg", "amount")))     # (exactly [amount])
             ctx.ob(R, EXEC, "Delegate-funds(sender -> pool, same amount)", okm and is_param(s[4], "sender") and is_param(s[2], "storage"),
                    "Delegate moves %s from %s" % (fmt(s[5])[:120], fmt(s[4])), fn=f, sample="BankMsg::Send{to: module_addr, amount: [amount]} from sender")
             ctx.ob(R, EXEC, "Delegate-stake-recorded-before-funds-move", _succ_dom(P, f, sends[0][0], SK + "add_stake"), "funds move without a successful add_stake", fn=f,
@@ -547,7 +547,7 @@ def r4(ctx, cfg, R="C14.R4", parts=("Delegate", "Undelegate", "Redelegate")):
                 b, i, st = ubs[0]
                 d = dict(P.rvalue(f, st["rv"], (b, i))[2])
                 pa = peel(d["payout_at"])
-                ok = is_param(d["delegator"], "sender") and msgf(d["validator"], "validator") and contains(d["amount"], lambda x: x[0] == "field" and x[2] == "amount" and msgf(x[1], "amount")) and \
+                ok = is_param(d["delegator"], "sender") and msgf(d["validator"], "validator") and _just(d["amount"], lambda x: x[0] == "field" and x[2] == "amount" and msgf(x[1], "amount")) and \
                     pa[0] == "call" and pa[1].endswith("Timestamp::plus_seconds") and \
                     peel(pa[2][0])[0] == "field" and peel(pa[2][0])[2] == "time" and is_param(peel(pa[2][0])[1], "block") and \
                     peel(pa[2][1])[0] == "field" and peel(pa[2][1])[2] == "unbonding_time"   # (exactly these two, nothing computed from them)
@@ -574,6 +574,35 @@ def r4(ctx, cfg, R="C14.R4", parts=("Delegate", "Undelegate", "Redelegate")):
                 msgf(ra[6], "amount") and msgf(aa[6], "amount") and _succ_dom(P, f, adds[0][0], SK + "remove_stake")
             ctx.ob(R, EXEC, "Redelegate(src -> dst, same amount, remove first)", ok, "Redelegate does not move the same amount from src to dst after a successful removal", fn=f,
                    sample="remove_stake(src, amount)? then add_stake(dst, amount)")
+
+
+def _just(o, pred, depth=0):
+    """`o` is the value `pred` recognises, possibly converted between integer / coin types (`.u128()`, `.into()`, `Uint128::new`,
+    `Uint128::from`), but not computed from it: a halved, clamped or summed amount merely *mentions* its source"""
+    o = peel(o)
+    if pred(o):
+        return True
+    if depth < 4 and o[0] == "call" and len(o[2]) == 1 and o[1].rsplit("::", 1)[-1] in ("u128", "into", "from", "new") and \
+            (o[1].startswith("cosmwasm_std::Uint128") or o[1].startswith("std::convert::")):
+        return _just(o[2][0], pred, depth + 1)
+    return False
+
+
+def _one_coin_vec(o, amount_pred, denom_pred=None):
+    """`vec![c]` (or `[c].to_vec()`) of exactly one coin: `c` is the value itself when denom_pred is None, else `coin(a, d)` /
+    `Coin { amount: a, denom: d }` with a = just the amount and d recognised by denom_pred"""
+    o = peel(o)
+    if not (o[0] == "agg" and o[1] in ("vec", "array") and len(o[2]) == 1):
+        return False
+    c = peel(o[2][0][1])
+    if denom_pred is None:
+        return amount_pred(c)
+    if c[0] == "call" and c[1] in ("cosmwasm_std::coin", "cosmwasm_std::Coin::new") and len(c[2]) == 2:
+        return _just(c[2][0], amount_pred) and denom_pred(c[2][1])
+    if c[0] == "agg" and c[1] == "cosmwasm_std::Coin":
+        d = dict(c[2])
+        return _just(d["amount"], amount_pred) and denom_pred(d["denom"])
+    return False
 
 
 def r5(ctx, cfg):
@@ -606,7 +635,12 @@ def r5(ctx, cfg):
 
     def popped(o, fld):
         return contains(o, lambda x: x[0] == "field" and x[2] == fld and contains(x[1], lambda y: y[0] == "call" and y[1].endswith("VecDeque::pop_front")))
-    okm = contains(a[5], lambda x: x[0] == "agg" and x[1] == "cosmwasm_std::BankMsg::Send" and popped(dict(x[2])["to_address"], "delegator") and popped(dict(x[2])["amount"], "amount"))
+    def popped_exactly(o, fld):
+        o = peel(o)
+        return o[0] == "field" and o[2] == fld and contains(o[1], lambda y: y[0] == "call" and y[1].endswith("VecDeque::pop_front"))
+    # (the whole recorded amount, in one coin: `vec![coin(amount, bonded_denom)]`)
+    okm = contains(a[5], lambda x: x[0] == "agg" and x[1] == "cosmwasm_std::BankMsg::Send" and popped(dict(x[2])["to_address"], "delegator") and
+                   _one_coin_vec(dict(x[2])["amount"], lambda y: popped_exactly(y, "amount"), lambda dn: contains(dn, lambda y: y[0] == "field" and y[2] == "bonded_denom")))
     src = contains(a[4], lambda x: x[0] == "field" and x[2] == "module_addr" and is_param(x[1], "self"))
     ctx.ob(R, key, "pays(pool -> entry.delegator, entry.amount)", okm and src and is_param(a[2], "storage"),
            "payout is %s from %s" % (fmt(a[5])[:160], fmt(a[4])[:40]), fn=f, line=t["line"], sample="BankMsg::Send{to: delegator, amount: [amount]} from module_addr")
@@ -673,6 +707,34 @@ def r5(ctx, cfg):
     # payout errors propagate (block update then panics: recorded in R2)
     ctx.ob(R, key, "payout-error-propagates", any(tt["callee"].get("trait") == "std::ops::FromResidual" and contains(P.call_args(f, tt, b)[0], lambda x: x[0] == "call" and x[1] == "app::CosmosRouter::execute")
                                                  for b, tt in f.calls()), "a failed payout is not propagated", fn=f, sample="router.execute(..)?")
+    # "by the first block update at or after the unbonding period": every block update runs the queue - in set_block and
+    # update_block no return is reachable without passing the process_queue call, and the call comes after the new block
+    # is in place (an update that leaves the time unchanged, or only bumps the height, still pays what is due: with an
+    # unbonding time of zero the entry is due at once)
+    for name in ("set_block", "update_block"):
+        k3 = "app::App::" + name
+        h = ctx.need_fn(R, k3)
+        if h is None:
+            continue
+        ch = cfg_of(h)
+        pq = [(b, t2) for b, t2 in h.calls() if t2["callee"]["key"].endswith("Staking::process_queue")]
+        ok = len(pq) == 1
+        d = "%d process_queue calls" % len(pq)
+        if ok:
+            pb = pq[0][0]
+            skipping = [r for r in ch.return_blocks() if not ch.must_pass(pb, r)]
+            ok = not skipping
+            d = "a block update can return without running the unbonding queue" if skipping else "-"
+            if ok:
+                if name == "update_block":
+                    act = [b for b, t2 in h.calls() if t2["callee"]["name"] in ("call", "call_once", "call_mut") and t2["callee"].get("trait", "").startswith("std::ops::Fn")]
+                    ok = len(act) == 1 and ch.dominates(act[0], pb) and act[0] != pb
+                    d = "process_queue is not run after the caller's closure has updated the block"
+                else:
+                    wr = [(b, i) for b, i, st in h.stmts() if st["k"] == "assign" and st["dst"]["l"] == 1 and [e.get("name") for e in st["dst"]["p"] if e["k"] == "field"] == ["block"]]
+                    ok = len(wr) == 1 and (ch.dominates(wr[0][0], pb))
+                    d = "process_queue is not run after self.block has been replaced"
+        ctx.ob(R, k3, "every-block-update-runs-the-queue", ok, d, fn=h, sample="new block in place -> process_queue -> return, on every path")
     # <StakeKeeper as Staking>::process_queue delegates to it
     key2 = "<staking::StakeKeeper as staking::Staking>::process_queue"
     g = ctx.need_fn(R, key2)
